@@ -97,7 +97,7 @@ def ckResNum : CKRes → Int
 def cookieLine (lvl : Int) (s : List UInt8) : String :=
   -- the harness adds the element "Cookie: <value>" with value_size = strlen (value)
   let v := s.takeWhile (· != 0)
-  let key := strBytes Http.hdrCookie
+  let key := Http.hdrCookieBytes
   let buf : Bytes := (key ++ [0] ++ v ++ [0]).toArray
   let el : Elem := ⟨Http.kindHeader, ⟨0, 0, key.length⟩, some ⟨0, key.length + 1, v.length⟩⟩
   match parseCookieHeader (CKFlags.ofLevel lvl) buf [el] with
@@ -175,8 +175,8 @@ partial def streamReqs (lvl : Int) (pool : Nat) (buf : Bytes) (rb : Nat) (acc : 
       let v := x.view
       if hostMissing lvl x then acc ++ [s!"err {Http.codeBadRequest}"] else
       let line := s!"req m={hexN v.method} u={hexN v.url} v={hexN v.version} kv={showKv v.kv} hs={v.headerSize}"
-      let te := lookupElem x.h.buf x.ck.elems Http.kindHeader Http.hdrTransferEncoding
-      let cl := lookupElem x.h.buf x.ck.elems Http.kindHeader Http.hdrContentLength
+      let te := lookupElem x.h.buf x.ck.elems Http.kindHeader Http.hdrTransferEncodingBytes
+      let cl := lookupElem x.h.buf x.ck.elems Http.kindHeader Http.hdrContentLengthBytes
       match te, cl with
       | some _, _ => acc ++ [line ++ " te"]
       | none, some e =>
